@@ -145,7 +145,10 @@ prop("C13",
          "reflection) and, for transformations, returns its argument itself "
          "when nothing changed; every rec/cache implementation satisfies its "
          "memoisation contract for arbitrary (symbolically equal or unequal) "
-         "keys, including reporting key collisions."),
+         "keys, including reporting key collisions; the mapper cloned for a "
+         "function body reports at least what its parent reports (all four "
+         "combinations of the two switches); the real Mapper.rec look-up "
+         "resolves a method for every general-purpose mapper x node kind."),
      level_note=(
          "The whole-graph statements (once per node, one result per shared "
          "node, no more distinct results than inputs) follow from these "
@@ -189,8 +192,11 @@ prop("C05",
          "Value preservation is over the congruence 'a node's value is a "
          "function of its class, its non-array fields and its children's "
          "values' (trusted meaning of nodes; lowering itself is C02). "
-         "Idempotence of deduplicate/DCE/MPMS and whole-graph statements "
-         "follow by the induction of DESIGN Appendix A.4 (paper). "
+         "Idempotence of deduplicate/DCE/MPMS is checked per sampled program "
+         "(transform.idempotent: the pass applied to its own output returns "
+         "a structurally equal graph with the same stored nodes -- executed, "
+         "not deduced); whole-graph statements follow by the induction of "
+         "DESIGN Appendix A.4 (paper). "
          "unify_axes_tags' equation solving and AxesTagsEquationCollector are "
          "not verified (they only choose which tags are added)."),
      technique="contract-based deductive verification: symbolic execution of "
@@ -215,7 +221,12 @@ prop("C20",
          "for a node; every traversal reaches all declared children and "
          "post-visits after them (=> topological order); counters add exactly "
          "one per first visit with the right key; the materialised-node "
-         "predicate is exactly the documented set."),
+         "predicate is exactly the documented set; TagCountMapper counts a "
+         "node iff it carries a tag of every requested type (leaf x tag-set "
+         "x query table, and a whole graph with shared nodes and a size "
+         "parameter); every general-purpose mapper resolves a method for "
+         "every node kind through the real Mapper.rec look-up "
+         "(mappers.dispatch)."),
      level_note=(
          "Whole-graph statements (counts equal number of distinct nodes, "
          "topological order) follow by the inductions of DESIGN Appendix "
@@ -314,17 +325,21 @@ prop("C19",
          "no other exception."),
      level_note=(
          "Non-commutative operations are uninterpreted functions, so operand "
-         "order matters. Type casts are read as identity (exact arithmetic), "
-         "consistent with TypeCastDropper. The case analysis over term heads "
-         "is complete for the matcher's bounded look-ahead; operand rank 2."),
+         "order matters. Casts that NumPy's own promotion performs "
+         "(promote_types(src, dst) == dst) are read as identity; every other "
+         "cast (astype away from the operand's dtype) is an uninterpreted "
+         "function, so an operation that ignores it is refuted. The case "
+         "analysis over term heads is complete for the matcher's bounded "
+         "look-ahead; operand ranks 0..2."),
      technique="contract-based deductive verification: symbolic execution of "
                "the real raiser + denotational equivalence VCs (z3)",
      design_ref="DESIGN.md §6 C19",
      explanation="see contracts/c19_raising.py",
      structural_bound="operand rank 0..2; 17 heads x 9 operand classes "
-                      "(pairs); reductions with 6 bound/shape variants",
+                      "(pairs); reductions with 9 bound/shape/permutation "
+                      "variants; astype for 5 dtype pairs",
      trusted_base=["index-lambda semantics (pyvc/den.py)"],
-     assumptions=["exact arithmetic; casts value-preserving"],
+     assumptions=["exact arithmetic; promotion casts value-preserving"],
      unverified_surroundings=[])
 
 prop("C06",
@@ -368,21 +383,32 @@ prop("C12",
          "placeholder substitutor never recurses into a substitution (no "
          "capture); the inliner replaces parameters by bindings, passes the "
          "result through its own recursion, keeps names and tags; one clone "
-         "(name space) per function body."),
+         "(name space) per function body. In addition (contract "
+         "calls.programs, translation validation): for listed programs -- one "
+         "definition called several times with the same arrays in different "
+         "parameter positions, call sites producing equal sub-expressions, "
+         "caller and body sharing placeholder names, nested calls, keyword "
+         "arguments, the three return conventions -- the call-free graph "
+         "returned by the real inline_calls is proved (z3, all input values "
+         "and indices) to denote what applying the Python functions directly "
+         "denotes."),
      level_note=(
          "Value preservation of inlining follows from these contracts plus "
          "the copy-mapper contracts (C05) by congruence; arguments are opaque "
          "arrays, bodies are small real expressions over the parameter "
-         "placeholders. Nesting depth and repeated call sites follow by the "
-         "induction over the call structure (paper). clone_for_callee cache "
-         "separation is contracts/c13_caches.py."),
+         "placeholders. Nesting depth and repeated call sites in general "
+         "follow by the induction over the call structure (paper); the "
+         "listed whole programs exercise them concretely. clone_for_callee "
+         "cache separation and the propagation of the collision-reporting "
+         "switches is contracts/c13_caches.py."),
      technique="contract-based deductive verification: symbolic execution of "
                "the real outlining/inlining source with recursion replaced by "
                "its contract",
      design_ref="DESIGN.md §6 C12",
      explanation="see contracts/c12_calls.py",
      structural_bound="n+m <= 3 arguments; 2 parameters / 2 results in the "
-                      "inliner instances",
+                      "inliner instances; 6 whole programs with 2-3 call "
+                      "sites, nesting depth 2",
      trusted_base=[], assumptions=[],
      unverified_surroundings=["deduplicate() after inlining (C05/C13 "
                               "contracts)"])
@@ -411,7 +437,10 @@ prop("C14",
      design_ref="DESIGN.md §6 C14",
      explanation="see contracts/c14_numpy.py",
      structural_bound="every node kind the target supports at rank<=3, every "
-                      "slice None-pattern, all API-produced index lambdas",
+                      "slice None-pattern, all API-produced index lambdas "
+                      "(0-d operands included), +-inf/nan constants, 8 "
+                      "hand-built reduction lambdas around the normal form; "
+                      "6 unsupported constructs",
      trusted_base=["ast.unparse + exec (CPython)", "C01/C02/C03 as the NumPy "
                    "model"],
      assumptions=["exact arithmetic; dtypes not compared"],
